@@ -86,3 +86,59 @@ func VerifC14_Delivery() {
 	}
 	verif_Assert(n == 2, "the stalled listener still has every notification queued when the stream closes")
 }
+
+// C14: cancelling one listener (not the most recently registered one) leaves
+// the others registered; a listener that cancels still gets what was queued
+// for it before its channel closes.
+func VerifC14_CancelKeepsOthers() {
+	chain := c01chain(3)
+	v := newVSub(chain[2:], -1, 0, 0, true)
+	go v.s.distributeEvents()
+	first, cancelFirst := v.s.OnSyncFinished()
+	second, _ := v.s.OnSyncFinished()
+	third, cancelThird := v.s.OnSyncFinished()
+	_ = third
+
+	sync := func(head int) {
+		v.sy.chain = chain[head:]
+		got, err := v.s.SyncAdChain(context.Background(), v.peer)
+		verif_Assert(err == nil && got == chain[head], "sync succeeds")
+	}
+	sync(2)
+	// once the second listener has the first notification the distributor is forwarding it to
+	// every listener; a cancellation is handled only after that
+	e0 := <-second
+	verif_Assert(e0.Cid == chain[2], "first notification")
+	// the stalled third listener cancels without having read: what was queued must still be delivered
+	cancelThird()
+	n3 := 0
+	for e := range third {
+		verif_Assert(e.Cid == chain[2], "the queued notification is the first sync's")
+		n3++
+	}
+	verif_Assert(n3 == 1, "cancelling closes the channel after the notifications already queued, losing none")
+	// the first-registered listener cancels; the second must keep receiving
+	which := verif_Choose("cancelledListener", 0, 1)
+	if which == 0 {
+		cancelFirst()
+	}
+	sync(1)
+	sync(0)
+	close(v.s.closing)
+	close(v.s.inEvents)
+	got2 := []cid.Cid{e0.Cid}
+	for e := range second {
+		got2 = append(got2, e.Cid)
+	}
+	verif_Reach("second listener drained")
+	verif_Assert(len(got2) == 3 && got2[0] == chain[2] && got2[1] == chain[1] && got2[2] == chain[0], "a listener that stays registered receives every notification once, in order, whatever other listeners do")
+	n1 := 0
+	for range first {
+		n1++
+	}
+	if which == 0 {
+		verif_Assert(n1 == 1, "the cancelled listener got what was sent before it cancelled and nothing after")
+	} else {
+		verif_Assert(n1 == 3, "the listener that did not cancel got everything")
+	}
+}
